@@ -748,6 +748,9 @@ func runCore(args []string, repo, verif string) int {
 	dir := scratchDir()
 	defer os.RemoveAll(dir)
 	fmt.Println(len(rep.Obligations), "obligations")
+	if args[1] == "reach" {
+		rep.Obligations = append(rep.Obligations, &Obligation{Name: "reach", exec: rep.exec, NAssume: rep.NAssumeEnd, PC: rep.ReachPC, Goal: False})
+	}
 	for _, o := range rep.Obligations {
 		if !strings.Contains(o.Name, args[1]) {
 			continue
